@@ -12,7 +12,8 @@
 From Coq Require Import NArith List Bool.
 From AV Require Import Generated.Table Generated.Locking Spec.Atomicity
   Model.Base Model.Utf8parse Model.Parser Model.Strip Model.Locking Proofs.Locking
-  Spec.Io Model.Stream Generated.StreamFn Proofs.StreamGen Generated.AutoFn Proofs.AutoGen.
+  Spec.Io Model.Stream Generated.StreamFn Proofs.StreamGen Generated.AutoFn Proofs.AutoGen
+  Model.Glue Generated.GlueFn Proofs.GlueGen.
 Import ListNotations.
 
 (* every modelled call (write, write_vectored, flush, write_all, write_fmt with any
@@ -163,3 +164,24 @@ Theorem c19_translated_strip_lock_once :
      match g_ss_write_vectored (lss_erase x) bufs with Some (x1, r) => Some (lss_locked x x1, r) | None => None end) /\
   gl_ss_flush x = (lss_locked x (fst (g_ss_flush (lss_erase x))), snd (g_ss_flush (lss_erase x))).
 Proof. exact translated_strip_lock_once. Qed.
+
+(* ---- `as_locked_write` itself, translated (crates/anstream/src/stream.rs, Generated/GlueFn.v) ------------- *)
+
+(* for Stdout / Stderr it is `self.lock()`: one Acquire at the current length of the inner call history, the guard views
+   the SAME stream -- the reading `x.as_locked_write()` has in the translation above (lr_acquire, lr_w) *)
+Theorem c19_translated_as_locked_write_std : forall x,
+  g_as_locked_write_stdout x = (lr_acquire x, lr_w x) /\ g_as_locked_write_stderr x = (lr_acquire x, lr_w x).
+Proof. exact translated_as_locked_write_std. Qed.
+
+(* an already locked handle and the streams without a lock hand out themselves, no lock event; `&mut T` / `Box<T>` forward *)
+Theorem c19_translated_as_locked_write_self : forall f, In f g_as_locked_write_self_impls -> forall x, f x = (x, x).
+Proof. exact translated_as_locked_write_self. Qed.
+Theorem c19_translated_as_locked_write_forward : forall G (talw : lraw -> lraw * G) x,
+  g_as_locked_write_refmut G talw x = talw x /\ g_as_locked_write_box G talw x = talw x.
+Proof. exact translated_as_locked_write_forward. Qed.
+
+(* the Acquire of `as_locked_write` and the Release of the guard's destructor bracket the inner calls: lock_once *)
+Theorem c19_translated_stdout_lock_once : forall x w',
+  let '(x1, g) := g_as_locked_write_stdout x in
+  g = lr_w x /\ lr_log (lr_release (set_lr_w x1 w')) = lock_once (lr_log x) (lr_w x) w'.
+Proof. exact translated_stdout_lock_once. Qed.
